@@ -129,6 +129,8 @@ type VerifC05Result struct {
 // unwrapping of VM.Run; instead of panicking with a fatal error it reports it.
 func VerifC05Run(fn *Function, typeof TypeOfFunc, globals []reflect.Value, print PrintFunc, out io.Writer, conv Converter) (res VerifC05Result) {
 	vm := NewVM()
+	verifC05Current = vm
+	defer func() { verifC05Current = nil }()
 	if print != nil {
 		vm.SetPrint(print)
 	}
@@ -179,6 +181,61 @@ func VerifC05Run(fn *Function, typeof TypeOfFunc, globals []reflect.Value, print
 	}
 	res.Err = err
 	return res
+}
+
+// verifC05Current is the virtual machine of the VerifC05Run in progress (the
+// harness runs one at a time).
+var verifC05Current *VM
+
+// VerifC05ProbeData is the state of the register stacks seen from a native
+// function called, with no arguments, by the function that is running.
+type VerifC05ProbeData struct {
+	OK   bool
+	Site string    // how the running function was entered: "main", "OpCallFunc", "OpCallIndirect", "OpCallMacro", "nextCall"
+	Fp   [4]uint32 // frame pointers of the running function
+	Lhs  [4]uint32 // Fp + NumReg of the running function: what its growth guard compared with the stack length
+	St   [4]uint32 // lengths of the stacks
+}
+
+// VerifC05Probe must be called from a native function with no parameters and
+// no results that the interpreted code calls directly (OpCallNative) during
+// a VerifC05Run; elsewhere it returns OK false.
+func VerifC05Probe() (d VerifC05ProbeData) {
+	vm := verifC05Current
+	if vm == nil || vm.fn == nil || int(vm.pc) >= len(vm.fn.Body) || vm.pc == 0 || vm.fn.Body[vm.pc-1].Op != OpCallNative {
+		return d
+	}
+	shift := verifC05Shift(vm.fn.Body[vm.pc]) // callNative has added it to vm.fp
+	for k := 0; k < 4; k++ {
+		d.Fp[k] = uint32(vm.fp[k]) - uint32(shift[k])
+		d.Lhs[k] = d.Fp[k] + uint32(vm.fn.NumReg[k])
+		d.St[k] = uint32(vm.st[k])
+	}
+	d.OK = true
+	d.Site = "main"
+	for i := len(vm.calls) - 1; i >= 0; i-- {
+		call := vm.calls[i]
+		switch call.status {
+		case deferred, tailed:
+			continue
+		case started:
+			d.Site = "?"
+			if fn := call.cl.fn; fn != nil && call.pc >= 2 && int(call.pc-2) < len(fn.Body) {
+				switch fn.Body[call.pc-2].Op {
+				case OpCallFunc:
+					d.Site = "OpCallFunc"
+				case OpCallIndirect:
+					d.Site = "OpCallIndirect"
+				case OpCallMacro:
+					d.Site = "OpCallMacro"
+				}
+			}
+		default:
+			d.Site = "nextCall"
+		}
+		break
+	}
+	return d
 }
 
 // VerifC05Classify calls the real convertPanic on a synthetic payload with a
